@@ -2940,6 +2940,16 @@ void SPxLPBase<R>::buildDualProblem(SPxLPBase<R>& dualLP, SPxRowId primalRowIds[
    // iterating over each of the rows to create dual columns
    for(int i = 0; i < nRows(); ++i)
    {
+      // a free row has the dual multiplier zero (its type would be GREATER_EQUAL with the left-hand side -infinity,
+      // which would enter the dual objective as the number -1e100)
+      if(lhs(i) <= R(-infinity) && rhs(i) >= R(infinity))
+      {
+         primalRowIds[primalrowsidx] = rId(i);
+         primalrowsidx++;
+         dualcols.add(0.0, 0.0, rowVector(i), 0.0);
+         continue;
+      }
+
       // checking the type of the row
       switch(rowType(i))
       {
